@@ -75,13 +75,15 @@ class Zero(ConstantValue):
         """Create new Zero."""
         if free_indices:
             self = ConstantValue.__new__(cls)
+            self._init(shape, free_indices, index_dimensions)
         else:
             self = Zero._cache.get(shape)
             if self is not None:
                 return self
             self = ConstantValue.__new__(cls)
+            self._init(shape, free_indices, index_dimensions)
+            # Share the object only once it is fully initialised
             Zero._cache[shape] = self
-        self._init(shape, free_indices, index_dimensions)
         return self
 
     def __init__(self, shape=(), free_indices=(), index_dimensions=None):
@@ -376,10 +378,12 @@ class IntValue(RealValue):
             if self is not None:
                 return self
             self = RealValue.__new__(cls)
+            self._init(value)
+            # Share the object only once it is fully initialised
             IntValue._cache[value] = self
         else:
             self = RealValue.__new__(cls)
-        self._init(value)
+            self._init(value)
         return self
 
     def _init(self, value):
